@@ -5,7 +5,9 @@ sys.path.insert(0, os.path.dirname(os.path.abspath(__file__)))
 from smbase import *
 import tailmon, callers
 
-SHAPES = {'quick': [(1, 1, 1), (2, 1, 1), (1, 2, 1)], 'thorough': [(1, 1, 1), (2, 1, 1), (1, 2, 1), (2, 2, 1), (2, 2, 2), (1, 2, 2)]}
+# (apps in the app set, apps in the response, installer results); 'contract' = one result per offered app
+SHAPES = {'quick': [(1, 1, 'contract'), (2, 1, 'contract'), (1, 2, 'contract')],
+          'thorough': [(1, 1, 'contract'), (2, 1, 'contract'), (1, 2, 'contract'), (2, 2, 'contract'), (2, 3, 'contract'), (1, 2, 1), (1, 1, 2)]}
 KEEP = ('announced-states', 'check-result')
 
 
@@ -15,7 +17,8 @@ def run(chk, keep=KEEP, pid='C04'):
         import runmon
         runmon.monitor_run(chk, chk.tier)
         callers.monitor_attempt_loop(chk, chk.tier)
-        keep = tuple(keep) + ('idle-and-waiting-for-reboot', 'retry-iff-transient')
+        tailmon.monitor_alignment3(chk)
+        keep = tuple(keep) + ('idle-and-waiting-for-reboot', 'loop-error-announced', 'result-alignment-three-offers', 'run-explored')
     else:
         import sutmon
         sutmon.monitor_report(chk, 2)
